@@ -13,6 +13,7 @@ import (
 	"sync"
 
 	"github.com/dgraph-io/badger/v4/table"
+	"github.com/dgraph-io/badger/v4/verifhook"
 	"github.com/dgraph-io/badger/v4/y"
 )
 
@@ -228,6 +229,7 @@ func (cs *compactStatus) delete(cd compactDef) {
 		fmt.Println()
 		fmt.Printf("Looking for: %s in next level %d.\n", next, cd.nextLevel.level)
 		fmt.Printf("Next Level:\n%s\n", nextLevel.debug())
+		verifhook.AssertFailed()
 		log.Fatal("keyRange not found")
 	}
 	for _, t := range append(cd.top, cd.bot...) {
